@@ -3,7 +3,6 @@ package isaspec
 import (
 	"encoding/binary"
 	"fmt"
-	"math"
 	"math/bits"
 )
 
@@ -230,6 +229,11 @@ func execVector(x *Expect, in *Instr, e *Entry, pre, post *State) {
 		x.Unsupported = "output modifier on non-float destination"
 		return
 	}
+	sdwa := in.Enc == "sdwa"
+	if sdwa && (dOp == nil || dRole.Bits != 32 || len(srcOps) != 2 || cOp != nil) {
+		x.Unsupported = "sdwa form outside the specified subset"
+		return
+	}
 	var cin uint64
 	if iOp != nil {
 		cin = pre.ReadScalar(*iOp, 64)
@@ -249,6 +253,11 @@ func execVector(x *Expect, in *Instr, e *Entry, pre, post *State) {
 					return
 				}
 				v = modAbsNeg(v, srcRoles[i].Bits, so)
+				c.Mod[i] = so.Abs
+			}
+			if sdwa {
+				// 13-40: SRCn_SEL selects a byte / word of the operand, zero-extended
+				v = sdwaSel(v, in.Mods[fmt.Sprintf("src%d_sel", i)])
 			}
 			c.S[i] = v
 		}
@@ -256,6 +265,21 @@ func execVector(x *Expect, in *Instr, e *Entry, pre, post *State) {
 			c.D0 = pre.ReadLane(*dOp, dRole.Bits, lane)
 		}
 		e.V(&c)
+		if sdwa && c.WD {
+			// 13-40: DST_SEL places the result, DST_UNUSED decides the other bits
+			un := in.Mods["dst_unused"]
+			if e.SDWAQuirk == "pad-always" {
+				un = "UNUSED_PAD"
+			}
+			c.D = sdwaDst(uint32(c.D0), uint32(c.D), in.Mods["dst_sel"], un)
+			if e.SDWAQuirk == "sext-fills-low-bits" && un == "UNUSED_SEXT" {
+				sh, w := sdwaField(in.Mods["dst_sel"])
+				if w < 32 && uint32(c.D)>>(sh+w-1)&1 != 0 {
+					c.D = uint64(uint32(c.D) | ^(uint32(maskN(w)) << sh))
+				}
+			}
+			c.Alt = nil
+		}
 		if c.WD {
 			vals := append([]uint64{c.D}, c.Alt...)
 			if omod != 1 || clamp {
@@ -333,6 +357,49 @@ func execVector(x *Expect, in *Instr, e *Entry, pre, post *State) {
 	}
 }
 
+func sdwaField(sel string) (shift, width uint) {
+	switch sel {
+	case "BYTE_0":
+		return 0, 8
+	case "BYTE_1":
+		return 8, 8
+	case "BYTE_2":
+		return 16, 8
+	case "BYTE_3":
+		return 24, 8
+	case "WORD_0":
+		return 0, 16
+	case "WORD_1":
+		return 16, 16
+	}
+	return 0, 32
+}
+
+func sdwaSel(v uint64, sel string) uint64 {
+	sh, w := sdwaField(sel)
+	return (uint64(uint32(v)) >> sh) & maskN(w)
+}
+
+func sdwaDst(old, val uint32, sel, unused string) uint64 {
+	sh, w := sdwaField(sel)
+	if w == 32 {
+		return uint64(val)
+	}
+	m := uint32(maskN(w)) << sh
+	placed := (val << sh) & m
+	switch unused {
+	case "UNUSED_PRESERVE":
+		return uint64(old&^m | placed)
+	case "UNUSED_SEXT":
+		// sign-extend the upper bits, pad the lower bits with 0
+		if placed>>(sh+w-1)&1 != 0 && sh+w < 32 {
+			placed |= ^uint32(0) << (sh + w)
+		}
+		return uint64(placed)
+	}
+	return uint64(placed)
+}
+
 func le(b []byte) uint64 {
 	var buf [8]byte
 	copy(buf[:], b)
@@ -406,6 +473,10 @@ func execMem(x *Expect, in *Instr, e *Entry, pre, post *State) {
 				}
 				storeData(post.LDS[a:int(a)+m.Bytes], pre, in.Ops[1], lane)
 			case "dswrite2":
+				if in.Mod("offset0", 0) == in.Mod("offset1", 0) {
+					x.Unsupported = "write2 with equal offsets: 10-7 says only one access happens (of DATA0), 13-45 writes both"
+					return
+				}
 				base := uint32(pre.ReadLane(in.Ops[0], 32, lane))
 				for k, name := range []string{"offset0", "offset1"} {
 					a := base + uint32(in.Mod(name, 0))*uint32(m.Mul)
@@ -414,9 +485,6 @@ func execMem(x *Expect, in *Instr, e *Entry, pre, post *State) {
 						return
 					}
 					storeData(post.LDS[a:int(a)+m.Bytes], pre, in.Ops[1+k], lane)
-					if in.Mod("offset0", 0) == in.Mod("offset1", 0) {
-						break // 10-7: equal offsets cause only one write, of DATA0
-					}
 				}
 			}
 		}
@@ -488,5 +556,3 @@ func storeData(dst []byte, pre *State, src Operand, lane int) {
 	}
 	copy(dst, buf[:len(dst)])
 }
-
-var _ = math.Abs
